@@ -76,6 +76,18 @@ func (p *Prog) Header() string {
 	return sb.String()
 }
 
+// BaselineSource is the program without anything but its header and directive lines
+// (directives print content-free warnings that are not diagnostics of the program).
+func (p *Prog) BaselineSource() string {
+	s := p.Header()
+	for _, it := range p.Items {
+		if it.Kind == ItDir {
+			s += it.Render() + "\n"
+		}
+	}
+	return s
+}
+
 func (p *Prog) Source() string {
 	var sb strings.Builder
 	sb.WriteString(p.Header())
